@@ -1109,7 +1109,8 @@ class SourceFinder(object):
             else:
                 positions = [[kappa_sigma.shape[0] / 2],
                              [kappa_sigma.shape[1] / 2]]
-            xy = positions[0][0] + xmin, positions[1][0] + ymin
+            # +1 since pix2sky expects 1-based (fits) pixel coordinates
+            xy = positions[0][0] + xmin + 1, positions[1][0] + ymin + 1
             radec = global_data.wcshelper.pix2sky(xy)
             source.ra = radec[0]
 
